@@ -1362,5 +1362,8 @@ mod scale_function {
 }
 
 const fn weighted_average(x1: f64, w1: f64, x2: f64, w2: f64) -> f64 {
-    (x1 * w1 + x2 * w2) / (w1 + w2)
+    // rounding must not take the result outside [x1, x2] (e.g. 0.1 averaged with 0.1)
+    ((x1 * w1 + x2 * w2) / (w1 + w2))
+        .max(x1.min(x2))
+        .min(x1.max(x2))
 }
